@@ -95,6 +95,11 @@ def concretise(seq, tables, rnd, wallet="Wallet1", account="acc", op="Sign"):
     return out
 
 
+# names of unconfigured clients next to the configured "c1" (Perms.tla: unknown client - refused)
+SVC_UNKNOWN = ["zz", "C1", "c11", "c", "C2"]     # (service level: the name travels as a certificate subject)
+LOOKALIKES = ["C1", "c1 ", " c1", "c", "c11", "c1\x00", "c1/", "C2"]
+
+
 def run(prop, tier, seed):
     if prop == "C18":
         return run_c18(tier, seed)
@@ -134,8 +139,10 @@ def run(prop, tier, seed):
                 cases.append(dict(id=cid, perms=[dict(client="c1", perms=perms), dict(client="c2", perms=[dict(path="Wallet1", ops=["None"])])],
                                   reqs=[dict(client="c1", account="Wallet1/acc", op="Sign"), dict(client="zz", account="Wallet1/acc", op="Sign"),
                                         dict(client="", account="Wallet1/acc", op="Sign"), dict(client="c1", account="Wallet1/acc", op="Sign", nilcred=True),
-                                        dict(client="c2", account="Wallet1/acc", op="Sign"), dict(client="c1", account="/acc", op="Sign")]))
-                expect[cid] = ([allow, False, False, False, False, False], dict(kind="compose", entries=row["entries"], concrete=perms))
+                                        dict(client="c2", account="Wallet1/acc", op="Sign"), dict(client="c1", account="/acc", op="Sign")] +
+                                       # client names that are NOT configured but resemble a configured one: a client is known by its exact name
+                                       [dict(client=cn, account="Wallet1/acc", op="Sign") for cn in LOOKALIKES]))
+                expect[cid] = ([allow, False, False, False, False, False] + [False] * len(LOOKALIKES), dict(kind="compose", entries=row["entries"], concrete=perms))
         evs, rc, err = run_permdrv(dict(check_cases=cases, scenarios=[]), wd, "checker")
         if rc != 0:
             raise Inconclusive("permdrv (checker level) exited %s: %s" % (rc, err[-300:]))
@@ -207,7 +214,7 @@ def run(prop, tier, seed):
                 n += 1
                 ops.append(dict(id="o%d" % n, kind=kind, client="", wallet=tw, acct=tacct if tacct else "", epoch=10 * n))
                 n += 1
-                ops.append(dict(id="o%d" % n, kind=kind, client="zz", wallet=tw, acct=tacct if tacct else "", epoch=10 * n))
+                ops.append(dict(id="o%d" % n, kind=kind, client=SVC_UNKNOWN[n % len(SVC_UNKNOWN)], wallet=tw, acct=tacct if tacct else "", epoch=10 * n))
             sid = "C07-svc-%d" % ci
             scenarios.append(dict(id=sid, world=w, ops=ops))
             cfgs[sid] = cfg
@@ -344,7 +351,7 @@ def run_c18(tier, seed):
                         chosen = ["w1", "w2", "w10"]
                     out.append(dict(id="l%d" % n, kind="listpaths", client="c1", wallet="", acct="", paths=[PATHCAT[p] for p in chosen], pids=chosen))
                 n += 1
-                out.append(dict(id="l%d" % n, kind="listpaths", client="zz", wallet="", acct="", paths=["Wallet1", "Wallet2"], pids=["w1", "w2"]))
+                out.append(dict(id="l%d" % n, kind="listpaths", client=SVC_UNKNOWN[(n + ci) % len(SVC_UNKNOWN)], wallet="", acct="", paths=["Wallet1", "Wallet2"], pids=["w1", "w2"]))
                 return out
             ops += lists()
             # several creations, more than one of them in the same wallet, with listings in between
